@@ -563,4 +563,150 @@ theorem find_valid_core {α : Type} {ops : CostOps α} {row : Row} {tail : Nat} 
   simp_all [FindArgs.toTry]
 
 
+
+/-! ### the public callers -/
+
+theorem filterAccepted_mem {row : Row} {a : TryArgs} :
+    ∀ (l r : List Blk), filterAccepted row a l = .ok r →
+      ∀ b ∈ r, b ∈ l ∧ ∃ cfg, tryBlockConfig row b a = .ok (some cfg) := by
+  intro l
+  induction l with
+  | nil =>
+    intro r h b hb
+    simp only [filterAccepted, Except.ok.injEq] at h
+    subst h; cases hb
+  | cons x xs ih =>
+    intro r h b hb
+    unfold filterAccepted at h
+    split at h; · cases h
+    rename_i res hres
+    split at h; · cases h
+    rename_i rest hrest
+    simp only [Except.ok.injEq] at h
+    subst h
+    cases hres' : res with
+    | none =>
+      simp only [hres', Option.isSome_none, Bool.false_eq_true, if_false] at hb
+      obtain ⟨h1, h2⟩ := ih rest hrest b hb
+      exact ⟨List.mem_cons_of_mem _ h1, h2⟩
+    | some cfg =>
+      simp only [hres', Option.isSome_some, if_true, List.mem_cons] at hb
+      rcases hb with rfl | hb
+      · exact ⟨List.mem_cons_self, cfg, hres' ▸ hres⟩
+      · obtain ⟨h1, h2⟩ := ih rest hrest b hb
+        exact ⟨List.mem_cons_of_mem _ h1, h2⟩
+
+theorem npuFind_mem {crit : ScaledCrit} {row : Row} {op : ApiOp} {l : List Blk} {b : Blk}
+    (h : npuFindBlockConfigs crit row op = .ok l) (hb : b ∈ l) :
+    (toKernel op.kernel).assertOk = true ∧ b ∈ apiCandidates row op.ofm.shape ∧
+      ∃ cfg, tryBlockConfig row b (apiArgs crit op) = .ok (some cfg) := by
+  unfold npuFindBlockConfigs at h
+  split at h; · cases h
+  rename_i hk
+  split at h
+  · cases h
+  · cases h
+  · rename_i l' hne hl'
+    simp only [Except.ok.injEq] at h
+    subst h
+    obtain ⟨h1, h2⟩ := filterAccepted_mem _ _ hl' b hb
+    exact ⟨by simpa using hk, h1, h2⟩
+
+theorem getArch_of_try {row : Row} {op : ApiOp} {blk : Blk} {cfg : Config}
+    (hk : (toKernel op.kernel).assertOk = true) (h : tryBlockConfig row blk (genArgs op) = .ok (some cfg)) :
+    getArchBlockConfig row op blk = .ok cfg := by
+  unfold getArchBlockConfig
+  rw [if_neg (by simp [hk]), h]
+
+theorem apiArgs_eq_genArgs (crit : ScaledCrit) (op : ApiOp) (h1 : apiScaled crit op = genScaled op)
+    (h2 : apiIfm2 op = genIfm2 op) : apiArgs crit op = genArgs op := by
+  unfold apiArgs genArgs
+  rw [h1, h2]
+
+/-- with the generator's criterion in api.py the two `scaled` flags always agree -/
+theorem apiScaled_quantAndScale (op : ApiOp) : apiScaled .quantAndScale op = genScaled op := by
+  unfold apiScaled genScaled
+  cases op.ifm2 <;> simp [Bool.or_comm, Bool.or_left_comm]
+
+/-- `_try_block_config` ignores the accumulator parameters of an elementwise operation -/
+theorem tryCore_ew_indep (reserved bank total : Nat) (ew : EwUsage) (ofmB ifmB : Blk) (bits ig ab ag ab' ag' : Nat)
+    (lut : Int) (hew : ew ≠ .no) (h1 : 0 < ab ∧ 0 < ag) (h2 : 0 < ab' ∧ 0 < ag') :
+    tryCore reserved bank total ew ofmB ifmB bits ig ab ag lut =
+      tryCore reserved bank total ew ofmB ifmB bits ig ab' ag' lut := by
+  unfold tryCore
+  rw [if_neg (show ¬¬(ab > 0 ∧ ag > 0) by omega), if_neg (show ¬¬(ab' > 0 ∧ ag' > 0) by omega)]
+  cases ew
+  · exact absurd rfl hew
+  · rfl
+  · rfl
+
+theorem tryBlockConfig_intro {row : Row} {blk : Blk} {a : TryArgs} {g : Nat} {L : Layout}
+    (hub : 0 < row.ofmUblock.width ∧ 0 < row.ofmUblock.height ∧ 0 < row.ofmUblock.depth)
+    (hv : blockValid row blk = true) (hk : a.kernel.inDomain = true)
+    (hg : ifmGranule row (ewUsage a.bt a.usesScalar) a.ifmBits = some g)
+    (hL : (tryCtx row a g).layoutFor blk = .ok (some L)) :
+    ∃ cfg, tryBlockConfig row blk a = .ok (some cfg) := by
+  unfold tryBlockConfig
+  rw [if_neg (by omega), if_neg (by simp [hv]), if_neg (by simp [hk])]
+  have hc : a.ctx row = .ok (tryCtx row a g) := by
+    unfold TryArgs.ctx mkCtx
+    dsimp only
+    rw [hg]
+    rfl
+  rw [hc]
+  dsimp only
+  rw [hL]
+  exact ⟨_, rfl⟩
+
+theorem tryBlockConfig_domain {row : Row} {blk : Blk} {a : TryArgs} {cfg : Config}
+    (h : tryBlockConfig row blk a = .ok (some cfg)) :
+    (0 < row.ofmUblock.width ∧ 0 < row.ofmUblock.height ∧ 0 < row.ofmUblock.depth) ∧ a.kernel.inDomain = true := by
+  unfold tryBlockConfig at h
+  split at h; · cases h
+  rename_i hub
+  split at h; · cases h
+  split at h; · cases h
+  rename_i hk
+  exact ⟨by omega, by simpa using hk⟩
+
+/-- Acceptance by `try_block_config` depends on `scaled` only through the accumulator type of a
+    non-elementwise operation, and on `ifm2` only through the IFM depth of an operation whose IFM block
+    depth is not the OFM block depth. -/
+theorem try_accept_congr {row : Row} {tail : Nat} (hr : RowOk row tail) {blk : Blk} {a1 a2 : TryArgs} {cfg : Config}
+    (h : tryBlockConfig row blk a1 = .ok (some cfg))
+    (hsame : a2 = { a1 with scaled := a2.scaled, ifm2 := a2.ifm2 })
+    (hacc : ewUsage a1.bt a1.usesScalar ≠ .no ∨ accType a1.bt a1.ifmBits a1.scaled = accType a1.bt a1.ifmBits a2.scaled)
+    (hdepth : isEqualDepthOp a1.bt (ewUsage a1.bt a1.usesScalar) = true ∨ a1.view.ifmDepth = a2.view.ifmDepth) :
+    ∃ cfg', tryBlockConfig row blk a2 = .ok (some cfg') := by
+  obtain ⟨hv, g, L, hg, hL, _⟩ := tryBlockConfig_some h
+  obtain ⟨hub, hk⟩ := tryBlockConfig_domain h
+  obtain ⟨_, _, _, _, _, ⟨p16, p32, p40⟩⟩ := hr
+  obtain ⟨b16, b32, b40⟩ := accBits_values
+  have hpos : ∀ t : AccType, 0 < accBitsOf t ∧ 0 < accGranule row t := by
+    intro t; cases t <;> simp [accBitsOf, accGranule, b16, b32, b40, p16, p32, p40]
+  have e_bt : a2.bt = a1.bt := by rw [hsame]
+  have e_us : a2.usesScalar = a1.usesScalar := by rw [hsame]
+  have e_bits : a2.ifmBits = a1.ifmBits := by rw [hsame]
+  have e_k : a2.kernel = a1.kernel := by rw [hsame]
+  have e_ofm : a2.ofm = a1.ofm := by rw [hsame]
+  have e_lut : a2.lutBanks = a1.lutBanks := by rw [hsame]
+  have e_rs : a2.resampling = a1.resampling := by rw [hsame]
+  have e_pk : a2.isPartKernel = a1.isPartKernel := by rw [hsame]
+  refine tryBlockConfig_intro (g := g) (L := L) hub hv (e_k ▸ hk) (by rw [e_bt, e_us, e_bits]; exact hg) ?_
+  -- the two `_try_block_config` calls coincide
+  have hifm : (tryCtx row a2 g).ifmBlockFor blk = (tryCtx row a1 g).ifmBlockFor blk := by
+    unfold Ctx.ifmBlockFor tryCtx
+    simp only [e_bt, e_us, e_bits, e_k, e_rs, e_pk]
+    rcases hdepth with hd | hd
+    · rw [if_pos hd, if_pos hd]
+    · rw [hd]
+  unfold Ctx.layoutFor at hL ⊢
+  rw [hifm]
+  simp only [tryCtx, e_bt, e_us, e_bits, e_k, e_ofm, e_lut] at hL ⊢
+  rcases hacc with hew | hacc
+  · rw [tryCore_ew_indep _ _ _ _ _ _ _ _ _ _ _ _ _ hew (hpos _) (hpos (accType a1.bt a1.ifmBits a1.scaled))]
+    exact hL
+  · rw [← hacc]; exact hL
+
+
 end VelaVerif.Shram
